@@ -24,6 +24,7 @@ import yaml
 
 import odml
 
+from ..dtypes import tuple_set
 from ..format import Format, Document, Section, Property
 from ..info import FORMAT_VERSION, INSTALL_PATH
 from .dict_parser import DictReader
@@ -153,6 +154,10 @@ class RDFWriter(object):
         #self.graph.add((parent_node, rdf_predicate, bag))
         #for curr_val in values:
         #    self.graph.add((bag, RDF.li, Literal(curr_val)))
+        # odml style tuples are exported in their text form "(a;b)"; a Python
+        # list has no RDF equivalent and cannot be imported again.
+        values = [tuple_set(val) if isinstance(val, list) else val for val in values]
+
         if rdflib_version_major() >= 6:
             seq_list = []
             for curr_val in values:
